@@ -293,16 +293,22 @@ Definition parse_property (s : bytes) : option property :=
     end
   end.
 
+(** the loop over strings.Split(properties, ";") in parseMember: an empty piece (";;" or a trailing
+    ";") is skipped (fix 72863c6; before, it was kept as the zero Property - see [parse_props_old]). *)
 Fixpoint parse_props (pieces : list bytes) : option (list property) :=
   match pieces with
   | [] => Some []
-  | p :: r => match parse_property p with
-              | None => None
-              | Some x => match parse_props r with
-                          | None => None
-                          | Some xs => Some (x :: xs)
-                          end
-              end
+  | p :: r =>
+      match p with
+      | [] => parse_props r
+      | _ => match parse_property p with
+             | None => None
+             | Some x => match parse_props r with
+                         | None => None
+                         | Some xs => Some (x :: xs)
+                         end
+             end
+      end
   end.
 
 (** parseMember *)
@@ -460,4 +466,56 @@ Definition extract_into (parent : bag) (hdr : option bytes) : bag * bool :=
   match extract hdr with
   | Some b => (b, false)
   | None => (parent, true)
+  end.
+
+(** *** the parser BEFORE fix 72863c6 (F-C11-3): an empty property piece was kept as the zero Property.
+    Kept to document the defect (c11_reparse_strict_old_refuted); not used by the correspondence. *)
+Fixpoint parse_props_old (pieces : list bytes) : option (list property) :=
+  match pieces with
+  | [] => Some []
+  | p :: r => match parse_property p with
+              | None => None
+              | Some x => match parse_props_old r with
+                          | None => None
+                          | Some xs => Some (x :: xs)
+                          end
+              end
+  end.
+
+Definition parse_member_old (m : bytes) : option member :=
+  if MAX_BYTES_PER_MEMBER <? lenN m then None else
+  let '(kv, props_s, found) := cut SEMI m in
+  match (if found then parse_props_old (split SEMI props_s) else Some []) with
+  | None => None
+  | Some ps =>
+      let '(k, v, found2) := cut EQUALS kv in
+      if negb found2 then None else
+      let key := trim_space k in
+      if negb (validate_key key) then None else
+      let raw := trim_space v in
+      if negb (validate_value raw) then None else
+      match path_unescape raw with
+      | None => None
+      | Some u => Some (key, replace_invalid u, ps)
+      end
+  end.
+
+Fixpoint parse_members_old (pieces : list bytes) (acc : bag) : option bag :=
+  match pieces with
+  | [] => Some acc
+  | p :: r => match parse_member_old p with
+              | None => None
+              | Some m => parse_members_old r (bag_set acc m)
+              end
+  end.
+
+Definition parse_old (s : bytes) : option bag :=
+  match s with
+  | [] => Some []
+  | _ =>
+    if MAX_BYTES_PER_BAGGAGE <? lenN s then None else
+    match parse_members_old (split COMMA s) [] with
+    | None => None
+    | Some b => if MAX_MEMBERS <? lenN b then None else Some b
+    end
   end.
